@@ -1,9 +1,14 @@
 package el
 
 import (
+	"github.com/pkg/errors"
 	"regexp"
 	"strings"
 )
+
+// maxSubstitutions bounds the number of replacements one ReplaceAllContent call performs, so that
+// values which refer to themselves (a: "${a}") end in an error instead of looping forever.
+const maxSubstitutions = 1 << 10
 
 type Helper interface {
 	MatchString(s string) bool
@@ -37,10 +42,13 @@ func (e *elHelper) content(elr string) string {
 
 func (e *elHelper) ReplaceAllContent(s string, f func(content string) (string, error)) (string, error) {
 	var result = s
-	for true {
+	for n := 0; ; n++ {
 		elr := e.FindString(result)
 		if elr == "" {
 			break
+		}
+		if n >= maxSubstitutions {
+			return "", errors.Errorf("'%s' is not resolved after %d substitutions (circular reference?)", s, maxSubstitutions)
 		}
 		r, err := f(e.content(elr))
 		if err != nil {
